@@ -6,16 +6,16 @@ from harness import core, pipeline
 
 
 def cfg(ops, depth, hist):
-    return ("CONSTANTS\n Slots <- S3\n GenOf <- G3\n InstOf <- I3\n Times <- T6\n MaxOps = %d\n MaxDepth = %d\n RecordHist = %s\n"
+    return ("CONSTANTS\n Slots <- S4\n GenOf <- G4\n InstOf <- I4\n Times <- T6\n MaxOps = %d\n MaxDepth = %d\n RecordHist = %s\n"
             "INIT Init\nNEXT Next\nCHECK_DEADLOCK FALSE\n%s\n" % (ops, depth, "TRUE" if hist else "FALSE",
-                                                                "INVARIANT Emit" if hist else "INVARIANT TypeOK\nINVARIANT CacheIsTerm\nPROPERTY CtxRestores"))
+                                                                "INVARIANT Emit" if hist else "INVARIANT TypeOK\nINVARIANT CacheIsTerm\nPROPERTY CtxRestores\nPROPERTY SameTimeSameValue"))
 
 
 def run(prop, tier, seed):
     t0 = time.time()
     quick = tier == "quick"
     M = "MC_TimeDyn.tla"
-    opts = {"gens": {"1": "A", "2": "B", "3": "A"}, "insts": {"1": 1, "2": 1, "3": 2},
+    opts = {"gens": {"1": "A", "2": "B", "3": "A", "4": "K"}, "insts": {"1": 1, "2": 1, "3": 2, "4": 2},
             "tolerate": [e["tag"] for e in core.KnownFindings(prop).open]}
     props = [{"module": M, "cfg": "C19_p.cfg", "extra_defs": {"C19_p.cfg": cfg(4 if quick else 5, 2, False)}}]
     gens = [{"module": M, "cfg": "C19_g.cfg", "workers": 8, "extra_defs": {"C19_g.cfg": cfg(3 if quick else 4, 2, True)}},
@@ -29,6 +29,6 @@ def run(prop, tier, seed):
         th.join()
     return pipeline.finish(prop, tier, seed, t0, [box["st"], rst],
                            rule="non-trivial: the sequence contains at least one read or forced value of a time-dependent generator",
-                           assumptions=["times -2..3 (includes the value -1), 3 slots: two generators with the same name and seed on different instances and one different generator; contexts nested to depth 2-3; state push/pop depth 2",
+                           assumptions=["times -2..3 (includes the value -1; replayed both as small ints and as equal-but-not-identical large ints / Fractions), 4 slots: two generators with the same name and seed on different instances, one different generator and one plain counter callable; contexts nested to depth 2-3; state push/pop depth 2",
                                         "values are compared as terms <<generator identity, time>>: the check is that term -> float is a function over everything replayed by a worker process, not the numeric value itself",
                                         "numbergen.UniformRandom(time_dependent=True) with param.Dynamic.time_dependent=True and the global param.Dynamic.time_fn"])
